@@ -2486,3 +2486,11 @@ variant('b-initial-credit-handed-over-a-loop-turn-later', ['C09', 'C06'], 'rsock
         "            self.subscriber.subscription.request(frame.initial_request_n)",
         "            asyncio.get_event_loop().call_soon(self.subscriber.subscription.request, frame.initial_request_n)",
         ('C06.a', 'RequestStreamResponder.frame_received/RequestStreamFrame'))
+
+# C07.g synthetic error data is bytes
+variant('b-close-sequence-error-text-as-str', ['C07'], RB,
+        "            self.stop_all_streams()\n            self._fail_unsent_frames()",
+        "            self.stop_all_streams(data='Connection closed')\n            self._fail_unsent_frames()", ('C07.g', 'stop_all_streams'))
+variant('t-close-sequence-error-text-as-bytes-constant', ['C07', 'C12'], RB,
+        "            self.stop_all_streams()\n            self._fail_unsent_frames()",
+        "            self.stop_all_streams(data=b'Connection closed')\n            self._fail_unsent_frames()", kind='twin')
